@@ -7,6 +7,17 @@ NOTE = (
 )
 
 CHECKS = {
+    "C03": {
+        "technique": "both recovery modes of the real object recorded per run (icontract "
+        "postcondition on simulate for the field) and judged by a first-order gap bound that "
+        "includes the table's own measured inconsistency; ceiling, plateau, monotonicity, "
+        "two-rung refinement",
+        "level_text": "Runtime monitoring over consistent synthetic families, shipped and "
+        "library-built gas tables, constant / stepwise / arbitrary schedules and the ideal "
+        "reservoir; first-order constants calibrated with head-room, O(1) breaks are far outside.",
+        "design_ref": "DESIGN.md section 3, C03 and section 9",
+        "level_note": NOTE,
+    },
     "C02": {
         "technique": "refinement-ladder monitor: each rung's stored field (icontract postcondition "
         "on simulate) and flux recovery vs the exact solution of the documented problem (Fourier "
